@@ -496,6 +496,13 @@ impl MasterSession {
             return Err(TaskError::RejectedByIin2(response.header.iin));
         }
 
+        // An outstation may request confirmation of any response (e.g. to report a
+        // confirm-mandatory broadcast): an accepted, well-formed fragment that asks for it
+        // is confirmed
+        if response.header.control.con && response.objects.is_ok() {
+            self.confirm_solicited(io, destination, seq, writer).await?;
+        }
+
         Ok(Some(response))
     }
 
